@@ -536,15 +536,22 @@ End Bin.
 
 (* ====================================================================================== *)
 (** * 6. The spline formulas as coded are Safe at EVERY real input *)
-(* what C11 proves the parameterisation delivers, plus lo <= 0 <= hi (the robust replacement value is the literal 0) *)
+(* exactly what C11 proves the parameterisation delivers: knots strictly increasing from lo to hi in both arrays, positive
+   derivatives.  (Since fix c2cb03d the robust replacement value is interval[0]; with the literal 0 of the earlier code the
+   lemmas needed lo <= 0 <= hi in addition, and were false without it: rqs_inv_zero_unsafe_refuted below.) *)
 Record rqs_valid (xp yp dv : list R) (lo hi : R) : Prop := {
   rv_sx : StronglySorted Rlt xp; rv_sy : StronglySorted Rlt yp;
   rv_len : (2 <= length xp)%nat; rv_ly : length yp = length xp; rv_ld : length dv = length xp;
   rv_dpos : Forall (Rlt 0) dv;
-  rv_x0 : nth 0 xp 0 = lo; rv_x1 : last xp 0 = hi; rv_y0 : nth 0 yp 0 = lo; rv_y1 : last yp 0 = hi;
-  rv_zero : lo <= 0 <= hi }.
+  rv_x0 : nth 0 xp 0 = lo; rv_x1 : last xp 0 = hi; rv_y0 : nth 0 yp 0 = lo; rv_y1 : last yp 0 = hi }.
 
-Lemma robust_in lo hi x : lo <= 0 <= hi -> lo <= where_ (Rleb lo x && Rleb x hi) x 0 <= hi.
+Lemma rqs_valid_lo_le_hi xp yp dv lo hi : rqs_valid xp yp dv lo hi -> lo <= hi.
+Proof.
+  intros V. destruct V. rewrite <- rv_x2, <- rv_x3, last_nth_R. left. apply sorted_nth_lt; [assumption| |]; lia.
+Qed.
+
+(* the robust value x_robust = where(in_bounds, x, interval[0]) always lies in the interval *)
+Lemma robust_in lo hi x : lo <= hi -> lo <= where_ (Rleb lo x && Rleb x hi) x lo <= hi.
 Proof.
   intros H. unfold where_. destruct (Rleb lo x) eqn:E1; destruct (Rleb x hi) eqn:E2; cbn [andb]; try lra.
   apply Rleb_true in E1, E2. lra.
@@ -595,13 +602,13 @@ Lemma rqs_fwd_safe en ilo ihi ix :
   rqs_valid (par en XP) (par en YP) (par en DV) (nth ilo (vars en) 0) (nth ihi (vars en) 0) ->
   Safe en (rqs_fwd_t (length (vars en)) (Var ilo) (Var ihi) (Var ix)).
 Proof.
-  intros Hlo Hhi Hx V. unfold rqs_fwd_t, rqs_fwd_gt, CGe.
+  intros Hlo Hhi Hx V. unfold rqs_fwd_t, rqs_fwd_gt, rob_lo, CGe.
   cbn [Safe CSafe ISafe]; rewrite ?isafe_bin; cbn [Safe].
   autorewrite with evq; rewrite ?ieval_bin, ?par_push, ?ev_var_new, ?ev_var_old by assumption.
   unfold Num.c; cbn [n_add n_sub n_mul n_div n_neg n_sqrt n_leb n_ofZ ROps ROpsG].
   rewrite ?nth_push_new, ?nth_push_old by assumption.
   match goal with |- context [rqs_bin ROps _ ?v] => set (xr := v) end.
-  assert (Hxr : nth ilo (vars en) 0 <= xr <= nth ihi (vars en) 0) by (apply robust_in; apply (rv_zero _ _ _ _ _ V)).
+  assert (Hxr : nth ilo (vars en) 0 <= xr <= nth ihi (vars en) 0) by (apply robust_in; apply (rqs_valid_lo_le_hi _ _ _ _ _ V)).
   destruct (bin_facts_x _ _ _ _ _ xr V Hxr) as (Hin & Hxlt & Hylt & Hd0 & Hd1).
   match goal with |- context [getz ROps _ (rqs_bin ROps ?pos xr)] => set (k := rqs_bin ROps pos xr) in * end.
   match type of Hxlt with ?a < ?b => set (xk := a) in *; set (xk1 := b) in * end.
@@ -617,13 +624,13 @@ Lemma rqs_deriv_safe en ilo ihi ix :
   rqs_valid (par en XP) (par en YP) (par en DV) (nth ilo (vars en) 0) (nth ihi (vars en) 0) ->
   Safe en (rqs_deriv_t (length (vars en)) (Var ilo) (Var ihi) (Var ix)).
 Proof.
-  intros Hlo Hhi Hx V. unfold rqs_deriv_t, rqs_deriv_gt, CGe.
+  intros Hlo Hhi Hx V. unfold rqs_deriv_t, rqs_deriv_gt, rob_lo, CGe.
   cbn [Safe CSafe ISafe]; rewrite ?isafe_bin; cbn [Safe].
   autorewrite with evq; rewrite ?ieval_bin, ?par_push, ?ev_var_new, ?ev_var_old by assumption.
   unfold Num.c; cbn [n_add n_sub n_mul n_div n_neg n_sqrt n_leb n_ofZ ROps ROpsG].
   rewrite ?nth_push_new, ?nth_push_old by assumption.
   match goal with |- context [rqs_bin ROps _ ?v] => set (xr := v) end.
-  assert (Hxr : nth ilo (vars en) 0 <= xr <= nth ihi (vars en) 0) by (apply robust_in; apply (rv_zero _ _ _ _ _ V)).
+  assert (Hxr : nth ilo (vars en) 0 <= xr <= nth ihi (vars en) 0) by (apply robust_in; apply (rqs_valid_lo_le_hi _ _ _ _ _ V)).
   destruct (bin_facts_x _ _ _ _ _ xr V Hxr) as (Hin & Hxlt & Hylt & Hd0 & Hd1).
   match goal with |- context [getz ROps _ (rqs_bin ROps ?pos xr)] => set (k := rqs_bin ROps pos xr) in * end.
   match type of Hxlt with ?a < ?b => set (xk := a) in *; set (xk1 := b) in * end.
@@ -641,13 +648,13 @@ Lemma rqs_inv_safe en ilo ihi iy :
   rqs_valid (par en XP) (par en YP) (par en DV) (nth ilo (vars en) 0) (nth ihi (vars en) 0) ->
   Safe en (rqs_inv_t (length (vars en)) (Var ilo) (Var ihi) (Var iy)).
 Proof.
-  intros Hlo Hhi Hx V. unfold rqs_inv_t, rqs_inv_gt, CGe.
+  intros Hlo Hhi Hx V. unfold rqs_inv_t, rqs_inv_gt, rob_lo, CGe.
   cbn [Safe CSafe ISafe]; rewrite ?isafe_bin; cbn [Safe].
   autorewrite with evq; rewrite ?ieval_bin, ?par_push, ?ev_var_new, ?ev_var_old by assumption.
   unfold Num.c; cbn [n_add n_sub n_mul n_div n_neg n_sqrt n_leb n_ofZ ROps ROpsG].
   rewrite ?nth_push_new, ?nth_push_old by assumption.
   match goal with |- context [rqs_bin ROps _ ?v] => set (xr := v) end.
-  assert (Hxr : nth ilo (vars en) 0 <= xr <= nth ihi (vars en) 0) by (apply robust_in; apply (rv_zero _ _ _ _ _ V)).
+  assert (Hxr : nth ilo (vars en) 0 <= xr <= nth ihi (vars en) 0) by (apply robust_in; apply (rqs_valid_lo_le_hi _ _ _ _ _ V)).
   destruct (bin_facts_y _ _ _ _ _ xr V Hxr) as (Hin & Hxlt & Hylt & Hd0 & Hd1).
   match goal with |- context [getz ROps _ (rqs_bin ROps ?pos xr)] => set (k := rqs_bin ROps pos xr) in * end.
   match type of Hxlt with ?a < ?b => set (xk := a) in *; set (xk1 := b) in * end.
@@ -665,13 +672,13 @@ Lemma rqs_deriv_pos en ilo ihi ix :
   rqs_valid (par en XP) (par en YP) (par en DV) (nth ilo (vars en) 0) (nth ihi (vars en) 0) ->
   0 < ev en (rqs_deriv_t (length (vars en)) (Var ilo) (Var ihi) (Var ix)).
 Proof.
-  intros Hlo Hhi Hx V. unfold rqs_deriv_t, rqs_deriv_gt, CGe.
+  intros Hlo Hhi Hx V. unfold rqs_deriv_t, rqs_deriv_gt, rob_lo, CGe.
   cbn [Safe CSafe ISafe]; rewrite ?isafe_bin; cbn [Safe].
   autorewrite with evq; rewrite ?ieval_bin, ?par_push, ?ev_var_new, ?ev_var_old by assumption.
   unfold Num.c; cbn [n_add n_sub n_mul n_div n_neg n_sqrt n_leb n_ofZ ROps ROpsG].
   rewrite ?nth_push_new, ?nth_push_old by assumption.
   match goal with |- context [rqs_bin ROps _ ?v] => set (xr := v) end.
-  assert (Hxr : nth ilo (vars en) 0 <= xr <= nth ihi (vars en) 0) by (apply robust_in; apply (rv_zero _ _ _ _ _ V)).
+  assert (Hxr : nth ilo (vars en) 0 <= xr <= nth ihi (vars en) 0) by (apply robust_in; apply (rqs_valid_lo_le_hi _ _ _ _ _ V)).
   destruct (bin_facts_x _ _ _ _ _ xr V Hxr) as (Hin & Hxlt & Hylt & Hd0 & Hd1).
   match goal with |- context [getz ROps _ (rqs_bin ROps ?pos xr)] => set (k := rqs_bin ROps pos xr) in * end.
   match type of Hxlt with ?a < ?b => set (xk := a) in *; set (xk1 := b) in * end.
@@ -700,7 +707,7 @@ Lemma rqs_ld_fwd_safe en ilo ihi ix :
   rqs_valid (par en XP) (par en YP) (par en DV) (nth ilo (vars en) 0) (nth ihi (vars en) 0) ->
   Safe en (rqs_ld_fwd_t (length (vars en)) (Var ilo) (Var ihi) (Var ix)).
 Proof.
-  intros Hlo Hhi Hx V. unfold rqs_ld_fwd_t, rqs_ld_fwd_gt. cbn [Safe]. split.
+  intros Hlo Hhi Hx V. unfold rqs_ld_fwd_t, rqs_ld_fwd_gt. cbn [Safe]. change (rqs_deriv_gt bin_t rob_lo) with rqs_deriv_t. split.
   - now apply rqs_deriv_safe.
   - now apply rqs_deriv_pos.
 Qed.
@@ -709,9 +716,9 @@ Qed.
 Lemma rqs_ld_inv_of_safe en v ilo ihi :
   (ilo < length (vars en))%nat -> (ihi < length (vars en))%nat ->
   rqs_valid (par en XP) (par en YP) (par en DV) (nth ilo (vars en) 0) (nth ihi (vars en) 0) ->
-  Safe (push en v) (rqs_ld_inv_of_gt bin_t (S (length (vars en))) (Var ilo) (Var ihi) (Var (length (vars en)))).
+  Safe (push en v) (rqs_ld_inv_of_t (S (length (vars en))) (Var ilo) (Var ihi) (Var (length (vars en)))).
 Proof.
-  intros Hlo Hhi V. unfold rqs_ld_inv_of_gt. cbn [Safe]. change (rqs_deriv_gt bin_t) with rqs_deriv_t.
+  intros Hlo Hhi V. unfold rqs_ld_inv_of_t, rqs_ld_inv_of_gt. cbn [Safe]. change (rqs_deriv_gt bin_t rob_lo) with rqs_deriv_t.
   rewrite <- (len_push en v).
   assert (V' := rqs_valid_push en v ilo ihi Hlo Hhi V).
   split.
@@ -724,7 +731,7 @@ Lemma rqs_ld_inv_safe en ilo ihi iy :
   Safe en (rqs_ld_inv_t (length (vars en)) (Var ilo) (Var ihi) (Var iy)).
 Proof.
   intros Hlo Hhi Hy V. unfold rqs_ld_inv_t, rqs_ld_inv_gt. cbn [Safe].
-  change (rqs_inv_gt bin_t) with rqs_inv_t.
+  change (rqs_inv_gt bin_t rob_lo) with rqs_inv_t. change (rqs_ld_inv_of_gt bin_t rob_lo) with rqs_ld_inv_of_t.
   split; [now apply rqs_inv_safe | now apply rqs_ld_inv_of_safe].
 Qed.
 
@@ -749,7 +756,7 @@ Definition leaf_ok (l : leafk) (inverted : bool) (en : env R) : Prop :=
   | LTanh => inverted = true \/ -1 < x < 1                                (* Tanh maps onto (-1, 1) *)
   | LLeaky => 0 < nth 2 (vars en) 0                                      (* linear_grad > 0 *)
   | LRqs => rqs_valid (par en XP) (par en YP) (par en DV) (nth 4 (vars en) 0) (nth 5 (vars en) 0)
-  | LLeakyOld | LRqsOld => False
+  | LLeakyOld | LRqsOld | LRqsZero => False
   end.
 
 Theorem lp_safe en l inverted normal :
@@ -766,11 +773,11 @@ Proof.
       unfold fwd_t, ld_fwd_t, vX, vM, vG, vIC, vLO, vHI, vLOC, vSCALE; rewrite <- ?Hlen; try exact I.
     + apply affine_fwd_safe; exact I.
     + apply leaky_fwd_safe; exact I.
-    + apply rqs_fwd_safe; auto 10.
+    + apply rqs_fwd_safe; try (apply LT; lia); try assumption.
     + apply affine_ld_safe; [exact I|]. rewrite eval_Var. exact Hok.
     + apply tanh_log_grad_safe; exact I.
     + apply leaky_ld_fwd_safe; try exact I. rewrite eval_Var. exact Hok.
-    + apply rqs_ld_fwd_safe; auto 10.
+    + apply rqs_ld_fwd_safe; try (apply LT; lia); try assumption.
   - (* leaf: z = inverse(x) is bound once and feeds both the base density and the log-det *)
     cbn [Safe]. set (v := ev en (inv_t l vX)).
     assert (Hbe' : normal = true -> ev (push en v) vBSCALE <> 0).
@@ -783,11 +790,11 @@ Proof.
     + destruct Hok; [discriminate|]. apply softplus_inv_safe; [exact I|]. rewrite eval_Var. assumption.
     + destruct Hok; [discriminate|]. apply tanh_inv_safe_inside; [exact I|]. rewrite eval_Var. assumption.
     + apply leaky_inv_safe; try exact I. rewrite ev_Var_R. apply Rgt_not_eq. lra.
-    + apply rqs_inv_safe; auto 10.
+    + apply rqs_inv_safe; try (apply LT; lia); try assumption.
     + cbn [Safe]. apply affine_ld_safe; [exact I|]. rewrite ev_var_old by (apply LT; lia). exact Hok.
     + unfold tanh_ld_inv_of_t. cbn [Safe]. apply tanh_log_grad_safe_S. exact I.
     + apply leaky_ld_inv_of_safe; [apply LT; lia|exact Hok].
-    + apply rqs_ld_inv_of_safe; auto 10.
+    + apply rqs_ld_inv_of_safe; try (apply LT; lia); try assumption.
 Qed.
 
 (* the statement of C18 on the model: finite log_prob, finite gradient w.r.t. the input and w.r.t. EVERY
@@ -852,11 +859,11 @@ Definition en_init_lo : env R :=
 
 Theorem rqs_inv_old_unsafe_at_lo_refuted : ~ Safe en_init_lo (rqs_inv_old_t 3 (Var 1) (Var 2) (Var 0)).
 Proof.
-  unfold rqs_inv_old_t, rqs_inv_gt, CGe. cbn [Safe CSafe ISafe]. intros H.
+  unfold rqs_inv_old_t, rqs_inv_gt, rob_lo, CGe. cbn [Safe CSafe ISafe]. intros H.
   repeat match goal with H : _ /\ _ |- _ => destruct H end.
   match goal with Hn : ev _ (Sub (Neg _) (Sqrt _)) <> 0 |- _ => apply Hn end.
   (* the robust value is y itself, the searched index is 0, so k = -1 *)
-  assert (Hyr : ev en_init_lo (Where (CAnd (CLe (Var 1) (Var 0)) (CLe (Var 0) (Var 2))) (Var 0) (Const 0)) = -2).
+  assert (Hyr : ev en_init_lo (Where (CAnd (CLe (Var 1) (Var 0)) (CLe (Var 0) (Var 2))) (Var 0) (Var 1)) = -2).
   { autorewrite with evq. cbn [en_init_lo vars nth n_leb ROps ROpsG]. unfold where_.
     rewrite (proj2 (Rleb_true (-2) (-2))) by lra. rewrite (proj2 (Rleb_true (-2) 2)) by lra. reflexivity. }
   rewrite Hyr. set (en' := push en_init_lo (-2)).
@@ -871,6 +878,39 @@ Proof.
   match goal with |- - ?b - sqrt ?D = 0 =>
     assert (Eb : b = -4) by field; assert (ED : D = 4 * 4) by field; rewrite ED, Eb end.
   rewrite sqrt_square by lra. lra.
+Qed.
+
+(* D9 (before c2cb03d): out-of-interval inputs were replaced by the literal 0.  RationalQuadraticSpline(knots=2,
+   interval=(2,6)) with knots [2,3,5,6] and derivatives 1/2, at the out-of-interval input y = 0: the robust value 0 lies
+   OUTSIDE the interval, bin 0 is evaluated at theta = 0 - 2 < 0 and b^2 - 4ac = -71/4 < 0 under the square root
+   (unselected branch): not Safe -- every parameter gradient is NaN while log_prob is finite. *)
+Definition en_zero_out : env R :=
+  {| vars := [0; 2; 6]; pars := [[2; 3; 5; 6]; [2; 3; 5; 6]; [/ 2; / 2; / 2; / 2]] |}.
+
+Theorem rqs_inv_zero_unsafe_refuted : ~ Safe en_zero_out (rqs_inv_zero_t 3 (Var 1) (Var 2) (Var 0)).
+Proof.
+  unfold rqs_inv_zero_t, rqs_inv_gt, rob_zero, CGe. cbn [Safe CSafe ISafe]. intros H.
+  repeat match goal with H : _ /\ _ |- _ => destruct H end.
+  match goal with Hn : 0 < ev _ (Sub (Sq _) _) |- _ => revert Hn end.
+  assert (Hyr : ev en_zero_out (Where (CAnd (CLe (Var 1) (Var 0)) (CLe (Var 0) (Var 2))) (Var 0) (Const 0)) = 0).
+  { autorewrite with evq. cbn [en_zero_out vars nth]. unfold where_, Num.c. cbn [n_ofZ ROps ROpsG]. now destruct (_ && _). }
+  rewrite Hyr. set (en' := push en_zero_out 0).
+  assert (Hk : ieval ROps en' (bin_t YP (Var 3)) = 0%Z).
+  { unfold bin_t. autorewrite with evq. cbn [en' push en_zero_out vars pars par YP nth app searchsorted length].
+    cbn [n_ltb ROps ROpsG]. rewrite (proj2 (Rltb_false 2 0)) by lra. reflexivity. }
+  autorewrite with evq. rewrite !Hk.
+  cbn [en' push en_zero_out vars pars par XP YP DV nth app].
+  change (getz ROps [2; 3; 5; 6] 0) with 2. change (getz ROps [2; 3; 5; 6] (0 + 1)) with 3.
+  change (getz ROps [/ 2; / 2; / 2; / 2] 0) with (/ 2). change (getz ROps [/ 2; / 2; / 2; / 2] (0 + 1)) with (/ 2).
+  unfold Num.c. cbn [n_add n_sub n_mul n_div n_neg n_sqrt n_ofZ ROps ROpsG].
+  match goal with |- 0 < ?D -> False => assert (ED : D = - 71 / 4) by field; rewrite ED end. lra.
+Qed.
+
+(* the same parameters and input under the repaired formula (robust value = interval[0]) *)
+Lemma rqs_valid_excl0 : rqs_valid [2; 3; 5; 6] [2; 3; 5; 6] [/ 2; / 2; / 2; / 2] 2 6.
+Proof.
+  constructor; cbn; try lia; try lra; try reflexivity;
+    repeat (constructor; try lra).
 Qed.
 
 (* ====================================================================================== *)
